@@ -29,11 +29,31 @@ def c12(prop, tier, seed, core):
         if doc:
             core.add_counts(classes, doc.get("classes", {}))
     m = core.merge(prop, tier, seed, res, core.known_for(prop), engine="codec", extra_cov={"input_classes": classes})
+    # the same codecs in a build without the `enable` feature (they are plain functions of text)
+    import json as _json
+    inert_dir = os.path.join(core.VERIF, "harness-inert")
+    r = core.sh(["cargo", "build", "-q"], cwd=inert_dir, timeout=1500)
+    if r.returncode != 0:
+        m["inconclusive"].append("disabled build failed: " + r.stdout[-300:].replace("\n", " | "))
+    else:
+        o = os.path.join(work, "inert-codec.json")
+        core.sh([os.path.join(inert_dir, "target", "debug", "inert"), "--seed", str(_seed(seed, 77)), "--steps", str(60000 if tier == "quick" else 600000), "--out", o], timeout=600)
+        try:
+            d = _json.load(open(o))
+            n_codec = d.get("ops_by_kind", {}).get("codec", 0)
+            m["cov"]["codec_round_trips_in_a_build_without_enable"] = n_codec
+            m["evaluations"] += n_codec
+            for v in d.get("violations", []):
+                if v.get("signature") == "codec":
+                    m["violations"].append({"category": "Codec", "signature": "codec-in-disabled-build", "detail": v.get("detail")})
+        except Exception as e:
+            m["inconclusive"].append("disabled-build codec run gave no result: %s" % e)
     m["rule"] = ("contexts: all combinations of 12x12 boundary ids x both flags plus seeded random ids with random leading-zero runs; text: complete "
                  "product of 10 version shapes x 23 trace-field shapes x 23 span-field shapes x ~290 flag shapes (all 256 byte values), field counts "
                  "0-6, seeded 1-3 edit mutations of valid strings, random strings; every input is classified by an independent char-level reference "
                  "(must-be-None / well-formed with expected values / unspecified for a leading '+'). evaluations = codec calls checked; distinct "
-                 "non-trivial = distinct inputs that are not plain canonical strings, plus distinct encodings.")
+                 "non-trivial = distinct inputs that are not plain canonical strings, plus distinct encodings. Ids also go through non-borrowing serde deserializers; "
+                 "a second binary built without the `enable` feature repeats the traceparent / Display / FromStr round trips.")
     return m
 
 
@@ -255,10 +275,10 @@ def c04(prop, tier, seed, core):
     work = os.path.join(core.WORK, prop)
     known_sigs = [e["signature"] for e in core.known_for(prop)]
     # a cancel parked behind more forced commands than the ring has slots (one process)
-    add_hostile(m, core, prop, work, tier, ["deep-backlog-cancel", "overlapping-flushes-cancelable"], known_sigs)
+    add_hostile(m, core, prop, work, tier, ["deep-backlog-cancel", "overlapping-flushes-cancelable", "tls-cancel-in-destructor-cancelable"], known_sigs)
     m["rule"] = core.RULES["progsim"] + (" One separate process parks 10300 cancels of a bystander trace and then the cancel of a victim trace behind a full ring "
                                           "(more forced commands than the ring has slots), lets the collector catch up and finishes the roots: nothing of either trace may be delivered, a later trace must be complete. Another process keeps a flush() inside a slow report() while a root is cancelled, a second "
-                                          "flush() starts on another thread and late children finish: nothing of the cancelled trace may come out, a bystander trace must come out whole, once.")
+                                          "flush() starts on another thread and late children finish: nothing of the cancelled trace may come out, a bystander trace must come out whole, once. A third one cancels and drops roots inside user thread-local destructors (every initialisation order).")
     return m
 
 
